@@ -247,6 +247,9 @@ def execute(mn: str, ops: List[Operand], st: RefState, addr: int, length: int) -
     if mn in ("MV", "MVW", "MVP"):
         w = op_width(mn, ops)
         dst, src = ops
+        for x, y in ((dst, src), (src, dst)):
+            if x.kind == "reg" and y.kind == "emem_reg" and y.reg == x.reg and y.rmode in ("post", "pre"):
+                raise Skip("the data register is also the auto-modified pointer (order not documented)")
         if dst.kind == "reg" and src.kind == "imm":
             st.set(dst.reg, src.value)
             return
@@ -306,6 +309,10 @@ def execute(mn: str, ops: List[Operand], st: RefState, addr: int, length: int) -
         w = op_width(mn, ops)
         if ops[0].kind == "reg":
             w = reg_width(ops[0].reg)
+        if ops[0].kind == "reg" and ops[1].kind == "reg" and reg_width(ops[1].reg) > w:
+            raise Skip("register pair with a source wider than the destination is not in the tables")
+        if mn in ("CMPW", "CMPP") and ops[1].kind == "reg" and reg_width(ops[1].reg) != w:
+            raise Skip("CMPW/CMPP with a register of another width is not in the tables")
         a, b = Loc(st, ops[0], w), Loc(st, ops[1], w if ops[1].kind != "reg" else reg_width(ops[1].reg))
         bits = bits_of(ops[0], w)
         mask = (1 << bits) - 1
@@ -400,25 +407,29 @@ def execute(mn: str, ops: List[Operand], st: RefState, addr: int, length: int) -
         g["I"] = 0
         return
     if mn in ("DSLL", "DSRL"):
+        # README: DSLL (n): (n) is the MSB address, addresses descend; DSRL (n): (n) is the LSB address, addresses ascend.
+        # A decimal shift of the whole I-byte number by one digit: 1234 -> 2340 (DSLL), 123456 -> 012345 (DSRL).
         n = g["I"] or 0x10000
         a = Loc(st, ops[0], 1)
-        carry = 0
+        xs = [iwalk(a.base, -k if mn == "DSLL" else k) for k in range(n)]
+        old = [st.rd(x) for x in xs]
         acc = 0
-        for k in range(n):
-            x = iwalk(a.base, -k if mn == "DSLL" else k)
-            v = st.rd(x)
+        for k, x in enumerate(xs):
+            nxt = old[k + 1] if k + 1 < n else 0
             if mn == "DSLL":
-                r = ((v << 4) & 0xF0) | carry
-                carry = v >> 4
+                r = ((old[k] << 4) & 0xF0) | (nxt >> 4)
             else:
-                r = (v >> 4) | (carry << 4)
-                carry = v & 0x0F
+                r = (old[k] >> 4) | ((nxt & 0x0F) << 4)
             st.wr(x, r)
             acc |= r
         g["Z"] = 1 if acc == 0 else 0
         g["I"] = 0
         return
     # ---- stack ------------------------------------------------------------------------------------
+    if mn in ("PUSHU", "PUSHS", "POPU", "POPS", "CALL", "CALLF", "RET", "RETF", "RETI", "IR"):
+        spn = "U" if mn in ("PUSHU", "POPU") else "S"
+        if g[spn] < 8 or g[spn] > M20 - 8:
+            raise Skip("stack access at the edge of the address space (wrap is not documented)")
     if mn in ("PUSHU", "PUSHS"):
         sp = "U" if mn == "PUSHU" else "S"
         r = ops[0].reg
